@@ -15,7 +15,7 @@ RULE = (
     "scripted service: n in 0..N versions newest first, timestamps every non-increasing sequence over {t3>t2>t1} (ties included), page size "
     "1..n+1, window start/end each in {None, t1-, t1, t1+, t2, t2+, t3, t3+} (inverted windows included); real list_versions on all of them; "
     "real get for n<=4 with sample in {1,2,3}, every subset of failing downloads, two target timezones; VersionedDataHandler on empty and "
-    "non-empty windows, and constructed through its public constructor with the window given as ISO strings carrying UTC offsets +00:00 / -05:00 / +01:00 / -08:00. non-trivial = the window cuts the history (some but not all versions inside) or a page boundary falls inside the window "
+    "non-empty windows (thorough tier: a fourth timestamp t4 and window ends around it, n <= 7 for listings; retrieval for n <= 5 over 16 windows, page sizes {1,2,3,n,n+1}, sample in 1..5), and constructed through its public constructor with the window given as ISO strings carrying UTC offsets +00:00 / -05:00 / +01:00 / -08:00. non-trivial = the window cuts the history (some but not all versions inside) or a page boundary falls inside the window "
     "or a download fails"
 )
 ASSUMPTIONS = [
